@@ -96,7 +96,7 @@ class Case:
         self.bf = None
         try:
             self.ty = concretise_type(T, sp)
-            self.val = concretise(v)
+            self.val = None if v.get('k') == 'construction' else concretise(v)
             self.bf = build_failure(T, sp)
         except OutOfVocab as e:
             self.err = str(e)
@@ -209,6 +209,9 @@ _FACT_KINDS = {'decimal', 'fraction', 'date', 'time', 'datetime', 'pattern', 'pa
 
 def vkind(v: dict, T: dict | None = None) -> str:
     k = v['k']
+    if k == 'construction':
+        odd = [vkind(p[1]) for p in v['sup']]
+        return f"construction:{v['path']}:{len(v['sup'])}sup:{v['posn']}pos:" + ','.join(odd)
     if k == 'seq':
         return 'seq:' + v['f']
     if k == 'map':
@@ -846,3 +849,94 @@ def _tagged_layout(T: dict):
         if r:
             return r
     return None
+
+
+# ---------------------------------------------------------------------------------------
+# C14: constructions
+_idmap: dict = {}
+_alive: list = []
+
+
+def _small_id(o) -> int:
+    _alive.append(o)          # keep alive: identities must not be recycled within a run
+    return _idmap.setdefault(id(o), len(_idmap) + 1)
+
+
+def _observe_instance(x, cls, supplied_names) -> tuple:
+    facs = vocab.FACTORIES.get(cls) or vocab.FACTORIES.get(getattr(cls, '__origin__', None)) or {}
+    ids, isfac = [], []
+    for name, fac in facs.items():
+        if name in supplied_names:
+            continue
+        try:
+            val = getattr(x, name)
+        except AttributeError:
+            continue
+        if val is fac:
+            isfac.append(vocab.tok(name))
+        else:
+            ids.append(_small_id(val))
+    return ids, isfac
+
+
+def ev_construct(ident: int, c: Case) -> dict:
+    con = c.v
+    C = c.T
+    cls = c.ty
+    names = [vocab.text(C['fs'][i - 1]['n']) for (i, _v) in con['sup']]
+    vals = [concretise(v) for (_i, v) in con['sup']]
+    pos = vals[:con['posn']]
+    kw = dict(zip(names[con['posn']:], vals[con['posn']:]))
+    counter = vocab.HOOK_COUNTERS[cls]
+    before = counter[0]
+    f = cls if con['path'] == 'ctor' else cls.make_unchecked
+    x = None
+    try:
+        x = f(*pos, **kw)
+        out = {'k': 'ok', 'x': abstract(x)}
+    except ConvertError:
+        out = {'k': 'reject'}
+    except OutOfVocab:
+        out = {'k': 'ok', 'x': {'k': 'alien', 'c': 'unprojectable'}}
+    except Exception as e:  # noqa
+        out = {'k': 'exc', 'c': type(e).__name__}
+    e = {'id': ident, 'op': 'construct', 'cls': C, 'ty': C, 'val': con, 'path': con['path'], 'posn': con['posn'], 'sup': con['sup'],
+         'out': out, 'hook': counter[0] - before, 'ids': [], 'isfac': [], 'verbatim': 'na'}
+    if x is not None:
+        _alive.append(x)
+        e['ids'], e['isfac'] = _observe_instance(x, cls, set(names))
+        if con['path'] != 'ctor':
+            try:
+                e['verbatim'] = 'T' if all(getattr(x, n) is v for n, v in zip(names, vals)) else 'F'
+            except AttributeError:
+                e['verbatim'] = 'F'
+    return e
+
+
+def ev_created(ident: int, c: Case) -> dict:
+    """from_data on a class, with the C14 observations (hook runs, factory products) added."""
+    if c.T['k'] != 'cls':
+        raise OutOfVocab('not a class')
+    cls = c.ty
+    counter = vocab.HOOK_COUNTERS[cls]
+    before = counter[0]
+    x = None
+    try:
+        x = pane.from_data(c.val, cls)
+        out = {'k': 'ok', 'x': abstract(x)}
+    except ConvertError:
+        out = {'k': 'reject'}
+    except OutOfVocab:
+        out = {'k': 'ok', 'x': {'k': 'alien', 'c': 'unprojectable'}}
+    except Exception as ex:  # noqa
+        out = {'k': 'exc', 'c': type(ex).__name__}
+    hook = counter[0] - before
+    e = {'id': ident, 'op': 'created', 'ty': c.T, 'val': c.v, 'out': out, 'rerun': 'T', 'hook': hook, 'ids': [], 'isfac': []}
+    if x is not None:
+        _alive.append(x)
+        try:
+            supplied = set(getattr(x, '__pane_set__'))
+        except AttributeError:
+            supplied = set()
+        e['ids'], e['isfac'] = _observe_instance(x, cls, supplied)
+    return e
